@@ -12,6 +12,7 @@ import VsgProofs.Lemmas.BaseWsEffects
 import VsgProofs.Lemmas.BaseCaseTok
 import VsgProofs.Lemmas.BaseCaseAscii
 import VsgProofs.Lemmas.BFull2Indent   -- wp2_bfull2
+import VsgProofs.Lemmas.BFull2IndentVar   -- wp2b_indent
 namespace Vsgm.C10
 open Vsgm
 
@@ -272,6 +273,58 @@ example : UidOk toyUid toyP := ⟨fun t t' h => by unfold toyUid; rw [h], fun t 
 end wp2_bfull2
 
 /-! ### END wp2_bfull2 -/
+
+
+/-! ### BEGIN wp2b_indent (the between / between-unless / unless variants of token_indent, 9 rules) -/
+
+section wp2b_indent
+open BFull2
+
+/-- a variant is the plain rule with the indent oracle MASKED by the variant's selection of candidates: a candidate
+    the extractor filters out behaves exactly like one whose level is `None` -/
+theorem bfull2_indent_variant_is_masked_plain (uid : Tok → Option TM.Key) (P : Params) (ind : Oracle)
+    (hcs : CsOk P.cs) (hs : StyleOk P) (f : List Tok) :
+    (sem uid P ind).analyze f = (sem uid { P with variant := .plain } (maskO (selOrd uid P f) ind)).analyze f ∧
+    fixAll uid P ind f = fixAll uid { P with variant := .plain } (maskO (selOrd uid P f) ind) f :=
+  ⟨analyze_variant_mask uid P ind hcs hs f, fixAll_variant_mask uid P ind hcs hs f⟩
+
+/-- **whole-rule idempotence, all four extractors (102 rules)** — `_partial`: under `SelStable`, i.e. the
+    between / unless selection of every candidate (keyed by its ordinal among the non-whitespace tokens) is the same in
+    the fixed file.  For the plain extractor `SelStable` is void (`bfull2_indent_idem`).  For the variants it is what
+    remains open: the start / end pairing of `token_map.get_token_pair_indexes` depends only on the ORDER of the
+    non-whitespace tokens, which the fix keeps (`C03.bfull2_indent_layoutOnly_variants`); the real second analysis was
+    empty on every explored (rule, file, option, indent assignment). -/
+theorem bfull2_indent_idem_variants_partial (r : RuleCfg) (uid : Tok → Option TM.Key) (P : Params) (ind : Oracle) (f : List Tok)
+    (hf : r.fixable = true) (hcs : CsOk P.cs) (hs : StyleOk P) (hu : UidOk uid P) (hb : ∀ t ∈ f, t.isBof = false)
+    (hst : SelStable uid P ind f) :
+    (sem uid P ind).analyze (ruleFix r (sem uid P ind) none f).1 = [] := by
+  rw [bfull2_ruleFix_eq r uid P ind f hf]
+  exact analyze_fixAll_variant uid P ind hcs hs hu f hb hst
+
+/-- non-vacuity (a `between` rule, tokens of class 4 / 5 delimit the region): a candidate inside the pair is
+    repaired and nothing is left; a candidate outside the pair is left alone although the plain rule would report it -/
+example :
+    let uid : Tok → Option TM.Key := fun t =>
+      if t.cls = 1 then some TM.crKey else if t.cls = 2 then some TM.wsKey else if t.cls = 3 then some ("x", "sig")
+      else if t.cls = 4 then some ("x", "open") else if t.cls = 5 then some ("x", "close") else none
+    let P : Params := { cs := [{ uid := some ("x", "sig"), idx := 3 }], style := Base.Indent.sSpaces, size := 2, wsCls := 2,
+                        variant := .between { uid := some ("x", "open"), idx := 4 } { uid := some ("x", "close"), idx := 5 } false }
+    let ind : Oracle := fun _ => some 1
+    let cr : Tok := ⟨1, .cr, []⟩
+    let o : Tok := ⟨4, .code, "(".toList⟩
+    let c : Tok := ⟨5, .code, ")".toList⟩
+    let s : Tok := ⟨3, .code, "s".toList⟩
+    let f : List Tok := [o, cr, s, cr, c, cr]
+    let g : List Tok := [o, cr, c, cr, s, cr]
+    ((sem uid P ind).analyze f).map (·.start) = [2] ∧
+    fixAll uid P ind f = [o, cr, ⟨2, .ws, "  ".toList⟩, s, cr, c, cr] ∧
+    (sem uid P ind).analyze (fixAll uid P ind f) = [] ∧
+    (sem uid P ind).analyze g = [] ∧ (sem uid { P with variant := .plain } ind).analyze g ≠ [] := by
+  decide +kernel
+
+end wp2b_indent
+
+/-! ### END wp2b_indent -/
 
 
 end Vsgm.C10
